@@ -151,7 +151,7 @@ func (p *Prog) renamePlan() (map[types.Object]string, []string) {
 			for _, a := range added {
 				// compare shapes with the candidate's own name mapped to the missing one
 				shape := strings.ReplaceAll(cur[invKey("T", rel, a)], pkg.PkgPath+"."+a, pkg.PkgPath+"."+m)
-				if shape == ref[invKey("T", rel, m)] {
+				if sigMatches(shape, ref[invKey("T", rel, m)]) {
 					cand = append(cand, a)
 				}
 			}
@@ -252,7 +252,7 @@ func (p *Prog) renamePlan() (map[types.Object]string, []string) {
 				if sk.kind == "F" && curType != sk.typ {
 					got = strings.Replace(got, curType+"(", sk.typ+"(", 1)
 				}
-				if got == want {
+				if sigMatches(got, want) {
 					cand = append(cand, a)
 				}
 			}
@@ -356,4 +356,15 @@ func (p *Prog) canonicalOverlay(overlay map[string][]byte) (map[string][]byte, [
 	}
 	_ = token.NoPos
 	return out, notes
+}
+
+// sigMatches: the reference inventory may hold several signatures for one name ("new||older"): the repairs made to the
+// reference tree changed a few signatures, and a tree that predates such a repair is still recognised
+func sigMatches(got, want string) bool {
+	for _, w := range strings.Split(want, "||") {
+		if got == w {
+			return true
+		}
+	}
+	return false
 }
